@@ -68,4 +68,14 @@ CHECKS = {
   "level": "fault_enumeration",
   "engine": "libFuzzer",
  },
+ "C15": {
+  "text": "Model-based operation sequences over registers of Mat, Vec, SymMat, CovMat, BandMat, TransMat, TransVec (construct, copy, assign between sizes, move, reset, arithmetic with conforming and non-conforming operands, inverses, Cholesky, SVD, pinv, GSO, norms, stream round trip): after every step every live register is compared with a numpy model; plus EXHAUSTIVE enumeration of all matrices over {-1,0,1} up to 3x3 and {-2..2} 2x2 through inv, SVD and pinv.",
+  "note": "Trusted: numpy model of each operation (written from the headers), driver gdrv_mv. One known finding (SymMat*SymMat) is excluded by tag.",
+  "technique": "stateful model-based property testing (Hypothesis) + exhaustive enumeration of tiny matrices, under ASan/UBSan",
+ },
+ "C16": {
+  "text": "Generated sparsity patterns (rank-planted problems, explicit shapes incl. empty rows, single column, dense, banded, disconnected, zero columns; block layouts with bands) through SparseMatrix build/replicate/transpose, graph connectivity, RCM ordering, Envelope set / LDL' / triangular solves / sparse inverse, BlockDiagonal Cholesky and Homogenization, each compared with its dense numpy/scipy definition (exact zeros on dependent pivots, defect = n - rank).",
+  "note": "Trusted: numpy/scipy dense references, driver gdrv_sp. Sizes up to 12x10.",
+  "technique": "property-based testing (Hypothesis) against dense reference implementations",
+ },
 }
